@@ -32,7 +32,7 @@ def P(pid, rules, technique, decides, not_decided, assumptions=(),
     }
 
 
-P("C01", ["R08", "R09", "R10", "R11", "R12", "R13c", "R17", "R07", "R34", "R39", "R41", "R04", "R47", "R50", "R36", "R56", "R72"],
+P("C01", ["R08", "R09", "R10", "R11", "R12", "R13c", "R17", "R07", "R34", "R39", "R41", "R04", "R47", "R50", "R36", "R56", "R72", "R77", "R79"],
   "typestate abstract interpretation (dirty/clean fields), carry-loop "
   "symbolic agreement, unit-of-measure inference",
   "R08 in TimePoint.__add__ every incremented time/day field is followed by "
@@ -143,7 +143,7 @@ P("C06", ["R14", "R13c", "R08", "R09", "R10", "R11", "R12", "R15", "R22",
   "of C01 and the comparison of C02).",
   [], [])
 
-P("C07", ["R23", "R24", "R25", "R26", "R12", "R36", "R37", "R38", "R48", "R35", "R52", "R58", "R59", "R42", "R70"],
+P("C07", ["R23", "R24", "R25", "R26", "R12", "R36", "R37", "R38", "R48", "R35", "R52", "R58", "R59", "R42", "R70", "R76"],
   "constant folding / partial evaluation of the parser tables, regex-AST "
   "shape intersection",
   "R23 every translate row agrees with itself (one named group, capture "
@@ -238,7 +238,7 @@ P("C11", ["R16", "R17", "R12", "R07", "R40", "R41", "R69"],
   "and a month of 30 days.",
   "associativity/identity laws over float components.", [], [])
 
-P("C12", ["R18", "R19", "R04", "R07"],
+P("C12", ["R18", "R19", "R04", "R07", "R75"],
   "finite-domain abstract interpretation of the recurrence constructor and "
   "__iter__",
   "R18 for each of the 13 reachable abstract post-states of the "
@@ -355,7 +355,7 @@ P("C18", ["R26", "R12", "R14", "R07", "R41", "R42", "R44"],
   "results for actual system zone configurations (read from time.* at run "
   "time).", [], [])
 
-P("C19", ["R30", "R20", "R32", "R12", "R51", "R55", "R63", "R67", "R73"],
+P("C19", ["R30", "R20", "R32", "R12", "R51", "R55", "R63", "R67", "R73", "R76", "R18"],
   "structural try/handler and option-plumbing checks, call-graph "
   "reachability",
   "R30 all four dispatch calls (for the recurrence generator: its loop) "
@@ -376,7 +376,7 @@ P("C19", ["R30", "R20", "R32", "R12", "R51", "R55", "R63", "R67", "R73"],
    "outside the handler (an environment variable, not an argument) - noted"],
   [])
 
-P("C20", ["R08", "R14", "R09", "R10", "R12", "R23", "R13c", "R36", "R46", "R47", "R04", "R07"],
+P("C20", ["R08", "R14", "R09", "R10", "R12", "R23", "R13c", "R36", "R46", "R47", "R04", "R07", "R78"],
   "typestate abstract interpretation of the search loops",
   "(thin) R08 in each of the seven in-scope search loops of add_truncated "
   "the incremented field is normalised by _tick_over() before the loop "
@@ -416,7 +416,8 @@ CORE_RULES = ("R04", "R05", "R06", "R07", "R08", "R09", "R10", "R11", "R12",
               "R36", "R39", "R41", "R43", "R47", "R49", "R50", "R56", "R57", "R62", "R64",
               # (sixth round) operand mutation, the duration and year-range
               # text tables, and the rules added with that round
-              "R01", "R02", "R03", "R27", "R54", "R65", "R66", "R69", "R70", "R71", "R72")
+              "R01", "R02", "R03", "R27", "R54", "R65", "R66", "R69", "R70", "R71", "R72",
+              "R76", "R77", "R79")
 
 ENTRY_POINTS = {
     "C01": ["data.TimePoint.__add__", "data.TimePoint.__radd__"],
@@ -475,7 +476,8 @@ ENTRY_POINTS = {
             "data.get_timepoint_from_seconds_since_unix_epoch",
             "data.TimePoint.to_local_time_zone",
             "timezone.get_local_time_zone"],
-    "C19": ["main.main", "datetimeoper.DateTimeOperator.process_time_point_str",
+    "C19": ["main.main", "data.TimeRecurrence.__iter__",
+            "datetimeoper.DateTimeOperator.process_time_point_str",
             "datetimeoper.DateTimeOperator.diff_time_point_strs",
             "datetimeoper.DateTimeOperator.iter_recurrence_str",
             "datetimeoper.DateTimeOperator.format_duration_str"],
@@ -592,6 +594,36 @@ _ROUND7 = {
            "success; each offset list is unescaped from itself.",
 }
 for _pid, _t in _ROUND7.items():
+    _e = PROPS[_pid]["explanation"]
+    assert " Does not decide:" in _e, _pid
+    PROPS[_pid]["explanation"] = _e.replace(
+        " Does not decide:", " " + _t + " Does not decide:", 1)
+
+_ROUND8 = {
+    "C01": "R77 in _tick_over the fraction of a field moves into the next "
+           "finer one exactly when both are set, and each field is reduced "
+           "exactly under `field is not None`; R79 every day range "
+           "_iter_months_days builds runs from day 1 (or the start day) "
+           "through the month's last day.",
+    "C03": "R49 a month-and-day match in the walk over calendar year Y also "
+           "requires Y to be the date's year.",
+    "C04": "R12 each borrow of TimePoint - TimePoint refills its unit with "
+           "exactly one of the next unit up.",
+    "C06": "R22 zone minutes are checked against -(60-1) .. 60-1, narrowed "
+           "to 0 against the sign of the hours.",
+    "C10": "R27 the flag that writes '-' + str(abs(d)) is raised only by a "
+           "negative component and lowered for good by a positive one.",
+    "C12": "R75 only a strictly negative interval is refused (zero is the "
+           "single-point series).",
+    "C13": "R19 get_is_valid leaves its scan early only where the direction "
+           "of iteration rules out later members (every disjunct of the "
+           "exit condition is justified).",
+    "C18": "R44 the second count reaches Duration(seconds=) unrounded; R12 "
+           "borrow refills.",
+    "C20": "R78 fields are shifted by a zone difference only towards a "
+           "known zone (the unknown zone of a truncated point is not UTC).",
+}
+for _pid, _t in _ROUND8.items():
     _e = PROPS[_pid]["explanation"]
     assert " Does not decide:" in _e, _pid
     PROPS[_pid]["explanation"] = _e.replace(
